@@ -14,6 +14,13 @@ ASSUMPTIONS = [
     "termination is decided by a state budget 8*|LR1(g)|+64 (hook PARGLARE_VERIF_MAX_STATES) and a wall-clock limit, "
     "not by observing divergence",
     "failures are attributed to a known finding only when the frozen baseline implementation fails identically",
+    "theorems C05_first_*/C05_follow_*/C05_closure_*/C05_automaton_structure/C05_lalr_fixpoint/C05_model_table_complete/"
+    "C05_model_table_accepts are about the Gallina model of create_table (Model/First.v, Closure.v, Automaton.v, TableBuild.v); "
+    "that the impl builds the model's table (state numbering, items, follow sets, ACTION cells in order, GOTOs, finish flags, "
+    "FIRST, FOLLOW, conflicts, outcome kinds incl. GrammarError / budget / crashes) is established by the differential run "
+    "table_build_correspondence on generated grammars, not by proof",
+    "C05_model_table_complete covers the class plain_ok (no priorities, associativities, nops/nopse, prefer_shifts*; EMPTY only at "
+    "the end of right-hand sides) for SLR and LALR; with conflict resolution that removes actions completeness is false by design",
 ]
 
 CLASSICS = [
@@ -194,6 +201,7 @@ def run(ctx):
           "problem_kinds": {}, "not_restored": 0, "baseline_same": 0, "baseline_differs": 0}
     mcases, meta = [], []
     failing = []
+    violating_texts = set()
     distinct = set()
     samples = []
     for r in results:
@@ -309,6 +317,15 @@ def run(ctx):
                 st["baseline_differs"] += 1
                 what = "table construction: " + ", ".join(sorted(set(kinds)))
                 ctx.violation(what, rep, key="+".join(sorted(set(kinds))))
+                violating_texts.add(r["gtext"])
+    # ==== table_build_correspondence =====================================================
+    # The Gallina model of create_table itself (Model/First.v, Closure.v, Automaton.v,
+    # TableBuild.v) is run on generated grammars and compared with the impl's tables, item sets,
+    # follow sets, FIRST/FOLLOW, conflicts (harness/lib/tabcorr.py).  A disagreement is a
+    # violation of the correspondence unless the grammar already shows a property violation above.
+    from lib import tabcorr
+    tab_cov = tabcorr.run(ctx, skip_texts=violating_texts)
+    # ==== end of table_build_correspondence ==============================================
     return {
         "evaluations": st["tables"],
         "distinct_nontrivial": len(distinct),
@@ -318,7 +335,9 @@ def run(ctx):
         "samples": samples,
         "traces_validated_against_impl": st["validated_complete"],
         "distribution": st,
-        "crosscheck_vm_compute_cases": nx,
+        "table_build_correspondence": tab_cov,
+        "model_tables_compared_with_impl": tab_cov["compared"],
+        "crosscheck_vm_compute_cases": nx + tab_cov["crosscheck_vm_compute_cases"],
         "exhaustive": False,
     }
 
